@@ -6,3 +6,6 @@ open Servlin.C09
 #print axioms C09_undeclared_limit
 #print axioms C09_max_limit
 #print axioms C09_legacy_overflow
+#print axioms C09_disk_bound
+#print axioms C09_accepted_within_limit
+#print axioms C09_mem_bound
